@@ -223,20 +223,21 @@ def ipmw_outcome_cell(chk, drv, df, cfg, refs, dsid, rec):
     case = {'kind': 'IPTW.missing_model', 'cfg': cfg, 'data': rec}
     d2 = df.copy()
     d2['R'] = d2['Y'].notna().astype(int)
-    md = ref_fit(chk, 'R ~ ' + cfg['denominator'], d2)
-    mn = ref_fit(chk, 'R ~ ' + (numer if numer is not None else 'A'), d2) if stab else None
+    wcol = cfg.get('weights')
+    md = ref_fit(chk, 'R ~ ' + cfg['denominator'], d2, wcol)
+    mn = ref_fit(chk, 'R ~ ' + (numer if numer is not None else 'A'), d2, wcol) if stab else None
     if md is None or (stab and mn is None):
         return
     d_raw = np.asarray(md.predict(d2))
     n_raw = np.asarray(mn.predict(d2)) if stab else np.ones(len(df))
     want = np.where(d2['R'].values == 1, n_raw / clip(d_raw, bound), np.nan)
-    ipt = IPTW(df[['L1', 'L2', 'x', 'A', 'Y']], treatment='A', outcome='Y')
+    ipt = IPTW(df[['L1', 'L2', 'x', 'A', 'Y'] + ([wcol] if wcol else [])], treatment='A', outcome='Y', weights=wcol)
     ipt.treatment_model('L2 + x', print_results=False)
     ipt.missing_model(cfg['denominator'], model_numerator=numer, stabilized=stab, bound=bound, print_results=False)
     got = np.asarray(ipt.ipmw, dtype=float)
     chk.case(case, (dsid, 'IPTW.missing', repr(sorted(cfg.items(), key=str))),
              sample={'kind': 'IPTW.missing_model', 'cfg': cfg, 'n': len(df)} if chk.evals % 29 == 0 else None)
-    chk.count('IPTW.missing/%s/num=%s/bound=%s' % ('stab' if stab else 'unstab', numer, bool(bound)))
+    chk.count('IPTW.missing/%s/num=%s/bound=%s%s' % ('stab' if stab else 'unstab', numer, bool(bound), '/w' if wcol else ''))
     case['impl_head'] = [None if np.isnan(v) else float(v) for v in got[:8]]
     chk.d(allclose(got, want, **TOLD), 'IPTW.ipmw = Pr(observed | numerator) / Pr(observed | A, L) at the ML predictions, '
           'NaN for rows with a missing outcome', case)
@@ -331,7 +332,8 @@ def run_iptw_family(chk, drv, rng, tier):
         rec = {'frame': gen.frame_record(df), 'n': len(df)}
         for stab, numer in ((False, None), (True, None), (True, 'A + L2')):
             for bound in (False, 0.25, [0.3, 0.8]):
-                cfg = dict(stabilized=stab, numerator=numer, bound=bound, denominator='A + L2 + x')
+                cfg = dict(stabilized=stab, numerator=numer, bound=bound, denominator='A + L2 + x',
+                           weights=('w' if i % 2 else None))
                 guard(chk, 'IPTW.missing_model', cfg, rec, ipmw_outcome_cell, drv, df, cfg, None, frame_hash(df), rec)
 
 
